@@ -22,6 +22,18 @@ var hosts = []string{"e", "example.org", "a.b", "h-1.x"}
 var schemes = []string{"http", "https", "ex", "urn"}
 
 var prefixLabels = []string{"", "p", "q", "ex", "b", "base", "prefix", "g", "graph", "a", "tru", "t", "f", "P", "G", "BASE", "p.q", "é", "p-1", "fals"}
+// keyword-ladder prefix labels that do not start with a boolean keyword
+var kwPrefixLabels = func() []string {
+	var out []string
+	for _, k := range vh.KeywordLabels() {
+		l := strings.ToLower(k.Label)
+		if strings.HasPrefix(l, "t") || strings.HasPrefix(l, "f") {
+			continue
+		}
+		out = append(out, k.Label)
+	}
+	return out
+}()
 var boolPrefixLabels = []string{"true", "truex", "false", "falsey", "trueé", "true.1"}
 
 var localNames = []string{"", "a", "b", "c", "s1", "p_2", "o3", "a.b", "a..b", "a.b.c", "a.", "a-", "1a", "a:b", ":", "%41b", "a%4Fz", "a%4fz", "%c3%a9", "%", "%4", "a~b", "~", "-a", ".a",
@@ -396,6 +408,17 @@ func genDoc(r *vh.Rng, trigDoc, hasBase bool) doc {
 	g := &dgen{r: r, trig: trigDoc, hasBase: hasBase, flat: r.Chance(45), bad: r.Chance(8), boolPfx: r.Chance(3)}
 	for i := 0; i < 3; i++ {
 		g.pool = append(g.pool, vh.Pick(r, prefixLabels))
+	}
+	if r.Chance(25) {
+		// keyword-ladder labels (vh.KeywordLabels: every rung of prefix / base / graph / a x next-rune kind x spelling),
+		// together with a one-edit sibling; labels starting with true / false stay with the boolPfx family below
+		// (known class pname-bool-prefix)
+		if l := vh.Pick(r, kwPrefixLabels); l != "" {
+			g.pool[0] = l
+			if sib := vh.KwSiblings(l); len(sib) > 0 {
+				g.pool[1] = vh.Pick(r, sib)
+			}
+		}
 	}
 	g.baseHeavy = r.Chance(12)
 	for i, n := 0, 2+r.Intn(2); i < n; i++ {
